@@ -15,8 +15,8 @@ LEVEL = "exploration"
 RULE = ("Two and three threads encode documents from a pool of archetypes with different palettes and shapes "
         "(coloured single tables, page_by table, group_by table, multi-section, figure) under a deterministic "
         "baton scheduler driven by sys.settrace call events inside rtflite. Exhaustive: every schedule with ONE "
-        "preemption at every library call boundary of either thread for the listed document pairs (thorough: "
-        "all ordered pairs, plus line-level preemption inside color_service.py / registry.py); generated: "
+        "preemption at every library call boundary for six document pairs and at every third boundary for nine more "
+        "pairs incl. a document with itself (thorough: every boundary of all 81 ordered pairs, plus line-level preemption inside color_service.py / registry.py); generated: "
         "schedules with 2-3 preemptions and 3 threads drawn by Hypothesis. Oracle: each thread's string equals "
         "the string the same (freshly built) document gives when encoded alone; an exception in a thread is a "
         "failure. Non-trivial = at least one preemption fired while another thread was unfinished, so its "
@@ -50,8 +50,8 @@ ARCH = [
     # 3 figure document with coloured title
     {"kind": "figure", "figure": {"files": [{"suffix": ".png", "stem": "f0", "hex": _PNG}, {"suffix": ".png", "stem": "f1", "hex": _PNG}]},
      "title": {"text": ["@T0"], "text_color": "firebrick3"}, "footnote": {"text": ["@F0"], "as_table": False, "text_color": "blue"}},
-    # 4 paginated page_by table, colours per column
-    {"kind": "table", "page": {"nrow": 4},
+    # 4 paginated page_by table with a group starting inside a page, colours per column
+    {"kind": "table", "page": {"nrow": 6},
      "sections": [{"df": {"cols": [{"name": "@N0", "dtype": "str", "values": ["@G0:v0"] * 3 + ["@G0:v1"] * 2},
                                    {"name": "@N1", "dtype": "str", "values": [f"r{i}" for i in range(5)]}]},
                    "body": {"page_by": ["@N0"], "text_color": ["red", "purple"]}, "headers": "default"}]},
@@ -65,8 +65,22 @@ ARCH = [
      "sections": [{"df": {"cols": [{"name": "@N0", "dtype": "str", "values": ["x", "y", "y", "y", "y", "y", "z"]},
                                    {"name": "@N1", "dtype": "str", "values": [f"q{i}" for i in range(7)]}]},
                    "body": {"group_by": ["@N0"], "text_color": "blue"}, "headers": "default"}]},
+    # 7 two page_by levels on one page: outer value constant across an inner boundary (shared heading state shows here)
+    {"kind": "table", "page": {"nrow": 14},
+     "sections": [{"df": {"cols": [{"name": "@N0", "dtype": "str", "values": ["@G0:v0"] * 4 + ["@G0:v1"] * 2},
+                                   {"name": "@N1", "dtype": "str", "values": ["@G1:v0", "@G1:v0", "@G1:v1", "@G1:v1", "@G1:v0", "@G1:v1"]},
+                                   {"name": "@N2", "dtype": "str", "values": [f"r{i}" for i in range(6)]}]},
+                   "body": {"page_by": ["@N0", "@N1"]}, "headers": "default"}]},
+    # 8 another multi-section document (three sections, other data)
+    {"kind": "multi", "header_layout": "nested",
+     "sections": [{"df": {"cols": _cols(1, "m")}, "body": {}, "headers": "default"},
+                  {"df": {"cols": _cols(2, "n")}, "body": {"text_color": "red"}, "headers": "default"},
+                  {"df": {"cols": _cols(1, "o")}, "body": {}, "headers": "none"}],
+     "title": {"text": ["@T0"]}},
 ]
-QUICK_PAIRS = [(0, 1), (1, 0), (0, 2), (2, 0), (3, 0), (0, 3), (2, 4), (4, 2), (5, 6), (6, 5)]
+QUICK_FULL = [(0, 1), (1, 0), (0, 2), (2, 0), (3, 0), (0, 3)]                      # quick: every call boundary
+QUICK_STRIDE = [(2, 4), (4, 2), (5, 6), (6, 5), (4, 7), (7, 4), (7, 7), (2, 8), (8, 2)]   # quick: every 3rd call boundary (thorough: every one)
+QUICK_PAIRS = QUICK_FULL + QUICK_STRIDE
 
 
 def fresh(i):
@@ -86,11 +100,12 @@ def call_count(i, lines=False):
 
 
 def enumerate_cases(tier):
-    pairs = QUICK_PAIRS if tier == "quick" else [p for p in itertools.permutations(range(len(ARCH)), 2)]
+    pairs = QUICK_PAIRS if tier == "quick" else [p for p in itertools.product(range(len(ARCH)), repeat=2)]
     # thread 0 starts, is preempted at its k-th library call, thread 1 then runs its whole encode inside it;
     # the ordered pair (b, a) covers the preemption of the other document
     for a, b in pairs:
-        for k in range(1, call_count(a) + 1):
+        step = 3 if (tier == "quick" and (a, b) in QUICK_STRIDE) else 1
+        for k in range(1, call_count(a) + 1, step):
             yield {"docs": [a, b], "preempt": [[0, k]], "lines": False}
     if tier == "thorough":
         for a, b in QUICK_PAIRS:
